@@ -458,7 +458,7 @@ func main() {
 
 	perKind := 60
 	if a.Thorough() {
-		perKind = 2500
+		perKind = 1000
 	}
 	n, stuck := 0, 0
 	for round := 0; round < perKind; round++ {
@@ -501,7 +501,11 @@ func main() {
 			n++
 			if cl, what := judge(c, problems); cl != "" {
 				out.Violate(cl+"/"+kind, what, c)
-				if strings.HasPrefix(cl, "stream-does-not-end") || cl == "lines-missing" {
+				timedOut := false
+				for _, p := range problems {
+					timedOut = timedOut || strings.HasPrefix(p, "timeout:")
+				}
+				if timedOut {
 					// every such case costs a full timeout: a few are enough
 					if stuck++; stuck >= 3 {
 						out.Add(coqCase(out.NextID(), c), c, false)
